@@ -19,6 +19,15 @@ def h_wc(cfg):
     r = SchedRun(cfg)
     if not r.run():
         return
+    if cfg.get('no_out'):
+        # nothing is attached downstream: the packets are transmitted all the same (and go nowhere)
+        check('c12.idle-at-end', r.sched.packet_in_service is None)
+        check('c12.total-packets-zero', eq(r.sched.total_packets, 0))
+        for f in sorted(set(r.flows)):
+            check('c12.size-counter', eq(r.sched.size(f), 0), ('end', f))
+        cover('no-downstream')
+        cover('nontrivial')
+        return
     if r.check_all_depart_once():
         r.check_fifo_per_flow()
         r.check_work_conserving()
@@ -106,6 +115,12 @@ def jobs(tier, seed):
         if kind == 'WFQ':
             cfg['float_inexact'] = True
         js.append({'harness': 'wc', 'cfg': cfg, 'weight': 60, 'opts': {'max_paths': 20000}})
+    # a scheduler without anything attached to its output
+    for kind in KINDS:
+        cfg = {'kind': kind, 'rate': 8, 'table': TABLES[kind], 'flows': [0, 1, 0], 'sorts': 'int', 'no_out': True, 'smax': 3}
+        if kind == 'WFQ':
+            cfg['float_inexact'] = True
+        js.append({'harness': 'wc', 'cfg': cfg, 'weight': 10})
     # zero-length packets are packets (sizes drawn as int(expovariate) can be 0): seven of them in one burst, six of one flow -
     # equal stamps must not cost the per-flow order
     for kind in KINDS:
@@ -174,7 +189,7 @@ META = {
             'and tables concrete); non-trivial = at least two packets / a sample taken while packets were queued',
     'required_labels': ['c12.work-conserving-rate-exact', 'c12.per-flow-fifo', 'c12.each-once', 'c12.size-counter',
                         'c12.byte-counter', 'c12.monitor-count', 'c12.monitor-bytes'],
-    'required_covers': ['nontrivial', 'classmap', 'monitor-sample-with-service', 'two-instances'],
+    'required_covers': ['nontrivial', 'classmap', 'monitor-sample-with-service', 'two-instances', 'no-downstream'],
     'bounds': {'quick': 'six schedulers; n=3 packets (one 4-packet burst workload each), 2 flows, 3 flow patterns; rate 8; '
                         'tables {1,2}; class map {5->7, 6->7}; monitor: 2 packets, 2 samples',
                'thorough': 'n=4, all flow patterns over 2 flows; class-map workloads of 4; monitor 3 packets'},
